@@ -406,6 +406,168 @@ func runC20(w *World, r *Report) {
 		}
 	}
 
+	// the file IS the sealed message: every byte of it is nonce, ciphertext or tag, so any damage fails the AEAD. A
+	// transformation between the file and the sealer (an armor, a trim, a tolerant decoder) adds bytes or bits that the
+	// authentication never sees
+	r.rule("file-is-the-sealed-message", "in the wallet file helpers the bytes handed to Decrypt are the bytes os.ReadFile returned and the bytes handed to os.WriteFile next to the wallet path are the bytes Encrypt returned — unchanged: no call, reslice or conversion in between (repo helpers that only pass the value on are seen through)", 2)
+	{
+		var viaOf func(v ssa.Value, isSrc func(ssa.Value) bool, d int) (found bool, via string)
+		viaOf = func(v ssa.Value, isSrc func(ssa.Value) bool, d int) (bool, string) {
+			if v == nil || d > 10 {
+				return false, ""
+			}
+			if isSrc(v) {
+				return true, ""
+			}
+			switch x := v.(type) {
+			case *ssa.Extract:
+				if isSrc(x.Tuple) {
+					return true, ""
+				}
+				if hc, ok := x.Tuple.(*ssa.Call); ok {
+					if cal := hc.Call.StaticCallee(); cal != nil && isRepoFunc(cal) && len(cal.Blocks) > 0 {
+						okAll, n := true, 0
+						for _, ret := range returnsOf(cal) {
+							if !successReturn(ret) || x.Index >= len(ret.Results) {
+								continue
+							}
+							n++
+							if f, via := viaOf(ret.Results[x.Index], isSrc, d+1); !f || via != "" {
+								if via != "" {
+									return true, via
+								}
+								okAll = false
+							}
+						}
+						if okAll && n > 0 {
+							return true, ""
+						}
+						return false, ""
+					}
+					for _, a := range hc.Call.Args {
+						if f, _ := viaOf(a, isSrc, d+1); f {
+							return true, calleeName(hc)
+						}
+					}
+					return false, ""
+				}
+			case *ssa.Call:
+				if cal := x.Call.StaticCallee(); cal != nil && isRepoFunc(cal) && len(cal.Blocks) > 0 {
+					found, how := false, ""
+					for _, ret := range returnsOf(cal) {
+						if len(ret.Results) > 0 {
+							if f, via := viaOf(ret.Results[0], isSrc, d+1); f {
+								found = true
+								if via != "" && how == "" {
+									how = via
+								}
+							}
+						}
+					}
+					return found, how
+				}
+				for _, a := range x.Call.Args {
+					if f, _ := viaOf(a, isSrc, d+1); f {
+						return true, calleeName(x)
+					}
+				}
+				return false, ""
+			case *ssa.Phi:
+				for _, e := range x.Edges {
+					if f, via := viaOf(e, isSrc, d+1); f {
+						return f, via
+					}
+				}
+			case *ssa.Parameter:
+				for _, cs := range staticCallers(w, x.Parent()) {
+					for k, p2 := range x.Parent().Params {
+						if p2 == x && k < len(cs.Common().Args) {
+							if f, via := viaOf(cs.Common().Args[k], isSrc, d+1); f {
+								return f, via
+							}
+						}
+					}
+				}
+			case *ssa.Slice:
+				if f, _ := viaOf(x.X, isSrc, d+1); f {
+					return true, "a reslice"
+				}
+			case *ssa.Convert:
+				if f, _ := viaOf(x.X, isSrc, d+1); f {
+					return true, "a conversion"
+				}
+			case *ssa.UnOp:
+				if al, ok := x.X.(*ssa.Alloc); ok && x.Op == token.MUL {
+					for _, sv := range reachingStores(x).vals {
+						if f, via := viaOf(sv, isSrc, d+1); f {
+							return f, via
+						}
+					}
+					_ = al
+				}
+			}
+			return false, ""
+		}
+		isCallTo := func(names ...string) func(ssa.Value) bool {
+			return func(v ssa.Value) bool {
+				c, ok := v.(*ssa.Call)
+				if !ok {
+					return false
+				}
+				n := calleeName(c)
+				for _, nm := range names {
+					if n == nm || strings.HasSuffix(n, nm) {
+						return true
+					}
+				}
+				return false
+			}
+		}
+		for _, fn := range w.RepoFuncs("fileoperations") {
+			instrsOf(fn, func(in ssa.Instruction) {
+				c, ok := in.(ssa.CallInstruction)
+				if !ok {
+					return
+				}
+				n := calleeName(c)
+				switch {
+				case strings.HasSuffix(n, ".Decrypt") || c.Common().IsInvoke() && c.Common().Method.Name() == "Decrypt":
+					args := c.Common().Args
+					if len(args) < 2 {
+						return
+					}
+					f, via := viaOf(args[len(args)-1], isCallTo("os.ReadFile"), 0)
+					r.check(f && via == "", "file-is-the-sealed-message", shortFn(fn)+"/Decrypt", lineOf(w, c), "what is opened is what was read from the file",
+						"the bytes handed to Decrypt come from the file through "+via+": bytes of the file that this step drops or tolerates are outside the authentication")
+				case strings.HasSuffix(n, ".Encrypt") || c.Common().IsInvoke() && c.Common().Method.Name() == "Encrypt":
+					// the sealed message goes to a file as it is: some WriteFile of this function takes exactly this result
+					isThis := func(v ssa.Value) bool { return v == c.(ssa.Value) }
+					direct, how := false, ""
+					for _, g := range withHelpers(fn, 1) {
+						for _, wc := range callsTo(g, "os.WriteFile", "(*os.File).Write") {
+							wa := wc.Common().Args
+							if len(wa) < 2 {
+								continue
+							}
+							if f, via := viaOf(wa[1], isThis, 0); f {
+								if via == "" {
+									direct = true
+								} else {
+									how = via
+								}
+							}
+						}
+					}
+					why := "no os.WriteFile / (*os.File).Write of this function is handed the result of Encrypt itself"
+					if how != "" {
+						why = "the bytes written come from Encrypt through " + how
+					}
+					r.check(direct, "file-is-the-sealed-message", shortFn(fn)+"/Encrypt→WriteFile", lineOf(w, c), "what is written is what the sealer returned", why+": the file holds more than the sealed message, and the surplus is outside the authentication")
+				}
+			})
+		}
+	}
+
 	// the saved file holds exactly the sealed bytes: writers replace the file's content
 	r.rule("save-replaces-file", "every file opened for writing on the wallet save path truncates (or exclusively creates) it, so that the file holds exactly the bytes just sealed", 2)
 	nSinks := 0
